@@ -24,7 +24,8 @@
 (***************************************************************************)
 EXTENDS RA_SqlCompile, RA_Diag, Json
 
-CONSTANTS Contents, BoundModes, MenuKind, MaxDepth, StartChain, Emit
+CONSTANTS Contents, BoundModes, MenuKind, MaxDepth, StartChain, Emit,
+          EmitMin      \* emit only states whose history has at least this length (simulation runs)
 
 VARIABLES t1, bnd, hist, rel, ref
 vars == <<t1, bnd, hist, rel, ref>>
@@ -287,7 +288,7 @@ NestedCompound(t) ==      \* a chain one of whose operands is itself a bare comp
 Fired == Cardinality({m \in Nodes(rel) : m.k = "sel"}) > 1 \/ (rel.k = "sel" /\ SelOps(rel) # <<>>)
 
 EmitState ==
-    Emit =>
+    (Emit /\ Len(hist) >= EmitMin) =>
       LET d0 == Diag(rel, Env, FALSE)
           d1 == Diag(rel, Env, TRUE)
       IN PrintT(<<"ST", ToJson([
